@@ -2,6 +2,6 @@
    sumbool, sumor map to OCaml's; nat, positive, N, Z stay inductive. *)
 Require Extraction.
 Require Import ExtrOcamlBasic.
-From Atlas Require Import Base.Bytes Qual.Builder Qual.Scope Qual.RefSkeleton Qual.Lexq Qual.Replay.
+From Atlas Require Import Base.Bytes Qual.Builder Qual.Scope Qual.RefSkeleton Qual.Lexq Qual.Replay Qual.StmtLex Qual.Checkpoint.
 Extraction Language OCaml.
-Extraction "model.ml" new_builder run out Atlas.Qual.Builder.String panicked typeIdent schemaPrefix CheckChangesScope plan_chains strconvQuote lex_chain Planner_plan.
+Extraction "model.ml" new_builder run out Atlas.Qual.Builder.String panicked typeIdent schemaPrefix CheckChangesScope plan_chains plan_obs strconvQuote lex_chain Planner_plan lex_stmt Planner_checkpoint Planner_plan_exclude.
